@@ -122,6 +122,8 @@ type TG struct {
 
 type DeclaredVar struct {
 	Name, Type, Text string
+	// holder and key when the variable is read through meta()
+	MetaAcct, MetaKey string
 }
 
 // BalVar is a monetary variable whose value comes from balance() / overdraft().
@@ -257,7 +259,11 @@ func (g *TG) declare(typ, text string) string {
 		g.Vars[name] = text
 	}
 	g.Decls = append(g.Decls, d)
-	g.Declared = append(g.Declared, DeclaredVar{Name: name, Type: typ, Text: text})
+	dv := DeclaredVar{Name: name, Type: typ, Text: text}
+	if d.Origin != nil {
+		dv.MetaAcct, dv.MetaKey = d.Origin.Args[0].Text, d.Origin.Args[1].Text
+	}
+	g.Declared = append(g.Declared, dv)
 	return name
 }
 
@@ -459,7 +465,12 @@ func (g *TG) portionSpelling(r *big.Rat, w, tot int64) Allot {
 	c := g.n("allot.spell", 0, 99)
 	switch {
 	case c < g.K.PVarRepr:
-		return Allot{Kind: AVar, Text: g.declare("portion", fmt.Sprintf("%d/%d", w, tot))}
+		text := fmt.Sprintf("%d/%d", w, tot)
+		// the same portion variable may serve several clauses (of one allotment or of several)
+		if d, ok := g.reuse("allot.var", "portion", func(t string) bool { return t == text }); ok {
+			return Allot{Kind: AVar, Text: d.Name}
+		}
+		return Allot{Kind: AVar, Text: g.declare("portion", text)}
 	case c < g.K.PVarRepr+25:
 		if pt, ok := PercentText(r); ok {
 			if g.pct("allot.longpercent", 15) {
@@ -713,6 +724,20 @@ func (g *TG) anyValueExpr() *Expr {
 }
 
 func (g *TG) CallStmt() *Stmt {
+	// a value read through meta() written back to the entry it came from (the result then
+	// repeats what the store already holds - still a write the script made)
+	if g.pct("call.echo", 20) {
+		var mv []DeclaredVar
+		for _, d := range g.Declared {
+			if d.MetaKey != "" {
+				mv = append(mv, d)
+			}
+		}
+		if len(mv) > 0 {
+			d := mv[g.n("call.echo.i", 0, len(mv)-1)]
+			return &Stmt{Kind: StCall, Call: &Call{Fn: "set_account_meta", Args: []*Expr{Acct(d.MetaAcct), Str(d.MetaKey), Var(d.Name)}}}
+		}
+	}
 	if g.pct("call.tx", 50) {
 		return &Stmt{Kind: StCall, Call: &Call{Fn: "set_tx_meta", Args: []*Expr{g.StrExpr(pickS(g, "call.key", metaKeys)), g.anyValueExpr()}}}
 	}
